@@ -438,9 +438,35 @@ def c03_numle(res, rng):
             res.fail("correspondence", "C03: Python evaluates %r <= %r as %r, the model's PyNum.le as %s" % (a, b, a <= b, o), dict(type="numle", a=repr(a), b=repr(b)))
 
 
+def c03_hash_collisions(res, rng):
+    """Outcome vectors whose Python hashes coincide although their tie patterns differ (hash(-1) == hash(-2); hash(n) == hash(n mod
+    (2**61-1)); hash(-1.0) == hash(-2.0)), rated one after the other on ONE model object: each must be rated for what it is."""
+    M61 = 2 ** 61 - 1
+    seqs = [([("ranks", [-1, -1]), ("ranks", [-2, -1]), ("ranks", [-1, -2]), ("scores", [1, 1]), ("scores", [2, 1]), ("scores", [1, 2])], 2),
+            ([("ranks", [0, 0, 5]), ("ranks", [0, M61, M61 + 5]), ("ranks", [M61, 0, 5]), ("ranks", [5, M61 + 5, 0])], 3),
+            ([("ranks", [-1.0, -1.0, 3.0]), ("ranks", [-2.0, -1.0, 3.0]), ("scores", [1.0, 2.0, -3.0]), ("scores", [1.0, 1.0, -3.0])], 3),
+            ([("ranks", [1, 1, 1, 2]), ("ranks", [1, M61 + 1, 2 * M61 + 1, 2]), ("ranks", [1, 1, M61 + 1, 2])], 4)]
+    for kind in KINDS:
+        for seq, n in seqs:
+            beta, kappa, tau = gen_config(rng)
+            base = make_game(kind, gen_teams(rng, "typical", beta, n=n, maxsize=2), beta=beta, kappa=kappa, tau=tau)
+            shared = build_model(dict(base, _plain=True))
+            for key, vals in seq:
+                res.count("hash_collision_sequence_calls")
+                got = [[(p.mu, p.sigma) for p in t] for t in shared.rate(build_teams(shared, base), **{key: list(vals)})]
+                fresh = build_model(dict(base, _plain=True))
+                want = [[(p.mu, p.sigma) for p in t] for t in fresh.rate(build_teams(fresh, base), **{key: list(vals)})]
+                if got != want:
+                    res.fail("property", "C03: %s: %s=%r rated on a model that has rated other outcome vectors with the same hashes gives %r, on a fresh model %r" % (
+                        kind, key, vals, core.first_pair(got, want), None), dict(type="game", game=dict(base, oc=("R" if key == "ranks" else "S", list(vals)))))
+                    break
+
+
 def c03(res):
     rng = random.Random(res.seed)
     c03_ties(res)
+    if res.shard == 0:
+        c03_hash_collisions(res, rng)
     c03_numle(res, rng)
     allgames = []
     n = size(res, 220, 1200)
